@@ -462,6 +462,10 @@ func c06Run(c *Case) []any {
 			fw.Write([]byte(csToString(v["cs"])))
 			zw.Close()
 			body = zb.Bytes()
+		case "csv":
+			content["text/csv"] = map[string]any{"schema": absSchemaToOpenAPI(tc.Sch)}
+			ct = "text/csv"
+			body = []byte(csToString(v["cs"]))
 		case "octet":
 			content[declKey("application/octet-stream")] = map[string]any{"schema": absSchemaToOpenAPI(tc.Sch)}
 			ct = hdrOf("application/octet-stream")
